@@ -34,13 +34,15 @@ CHECKS = {
         text="TLC checks HistoryIndependent and HandlesOnlyGrowByCompile on the ACV model (and refutes them when Eval results "
              "alias handle-owned state); TLC enumerates every history of <=3 (quick) / <=5 (thorough) documents over 6-7 "
              "document kinds x 2 profiles; each is run through ONE compiled handle next to fresh ValidateWithConfiguration "
-             "calls under a fixed clock; the trace spec binds the report hash of each (profile, doc) on first observation and "
+             "calls under a fixed clock, plus long random, revisiting (k documents, again, a newcomer, again) and scripted histories; "
+             "the trace spec binds the report hash of each (profile, doc) on first observation and "
              "rejects any later call - fresh or compiled, whatever preceded it - that returns different bytes or a different outcome kind.",
         ref="DESIGN.md §6 C09", technique="TLA+ model checking (TLC) + exhaustive history replay with TLC trace validation"),
     "C10": dict(
         text="TLC explores every interleaving of the stage actions of 2 concurrent calls (1.9M states) for name distinctness and "
              "interleaving independence and refutes them for the split (racy) counter increment; TLC-simulated call schedules "
-             "(4 procs x 3 calls) are executed by a -race build with 4/16 goroutines: race-detector reports, per-call report "
+             "(4 procs x 3 calls) and one dense schedule (8 goroutines x 5 calls, alternating report configurations) are executed by a "
+             "-race build with 4/16 goroutines: race-detector reports, per-call report "
              "hashes vs solo values, probes of handles compiled under concurrency and the counter values seen by hook H3 are "
              "validated against the spec's atomic Genvar action.",
         ref="DESIGN.md §6 C10", technique="TLA+ model checking (TLC) + schedule replay under the Go race detector + trace validation",
